@@ -342,3 +342,27 @@ Definition outcome_eff (g : gstate) (o : outcome) : option (option econfig) :=
 (* the hypothesis of C23: the caller does not hand the package-level pointer itself to opcua.Dialer *)
 Definition opt_ok (o : opt) : bool :=
   match o with ODialer (Some {| u_ack := UGlobal |}) => false | _ => true end.
+
+(* ---- boolean equality on effective configurations (used by the correspondence check only) ---- *)
+Definition opt_eqb {A} (f : A -> A -> bool) (a b : option A) : bool :=
+  match a, b with Some x, Some y => f x y | None, None => true | _, _ => false end.
+Fixpoint list_eqb {A} (f : A -> A -> bool) (a b : list A) : bool :=
+  match a, b with [] , [] => true | x :: a', y :: b' => f x y && list_eqb f a' b' | _, _ => false end.
+Definition ack_eqb (a b : ack) : bool :=
+  N.eqb (a_version a) (a_version b) && N.eqb (a_rbuf a) (a_rbuf b) && N.eqb (a_sbuf a) (a_sbuf b) &&
+  N.eqb (a_maxmsg a) (a_maxmsg b) && N.eqb (a_maxchunk a) (a_maxchunk b).
+Definition token_eqb (a b : token) : bool :=
+  N.eqb (t_kind a) (t_kind b) && beqb (t_policy a) (t_policy b) && beqb (t_user a) (t_user b) && opt_eqb beqb (t_data a) (t_data b).
+Definition sechan_eqb (a b : sechan) : bool :=
+  beqb (sc_policy a) (sc_policy b) && opt_eqb beqb (sc_cert a) (sc_cert b) && N.eqb (sc_localkey a) (sc_localkey b) &&
+  N.eqb (sc_userkey a) (sc_userkey b) && opt_eqb beqb (sc_thumb a) (sc_thumb b) && opt_eqb beqb (sc_remote a) (sc_remote b) &&
+  N.eqb (sc_seed a) (sc_seed b) && N.eqb (sc_mode a) (sc_mode b) && Bool.eqb (sc_autorec a) (sc_autorec b) &&
+  Z.eqb (sc_recint a) (sc_recint b) && N.eqb (sc_lifetime a) (sc_lifetime b) && Z.eqb (sc_reqto a) (sc_reqto b).
+Definition session_eqb (a b : session) : bool :=
+  Z.eqb (ss_timeout a) (ss_timeout b) && beqb (ss_appuri a) (ss_appuri b) && beqb (ss_producturi a) (ss_producturi b) &&
+  beqb (ss_appname a) (ss_appname b) && opt_eqb (list_eqb beqb) (ss_locales a) (ss_locales b) && beqb (ss_name a) (ss_name b) &&
+  opt_eqb token_eqb (ss_token a) (ss_token b) && beqb (ss_authpolicy a) (ss_authpolicy b) && beqb (ss_authpass a) (ss_authpass b).
+Definition econfig_eqb (a b : econfig) : bool :=
+  opt_eqb (opt_eqb Z.eqb) (e_net a) (e_net b) && opt_eqb (opt_eqb ack_eqb) (e_ack a) (e_ack b) &&
+  Bool.eqb (e_ack_is_default_ptr a) (e_ack_is_default_ptr b) && sechan_eqb (e_sechan a) (e_sechan b) &&
+  session_eqb (e_session a) (e_session b) && N.eqb (e_statech a) (e_statech b) && N.eqb (e_statefn a) (e_statefn b).
